@@ -4,7 +4,10 @@ From GocqlV Require Import Lib.Base Gen.Consts C20.Model C20.Spec.
 
 (* a tls.Config as the harness can observe it: InsecureSkipVerify, ServerName, RootCAs (nil | which of
    the harness's numbered authorities are in the pool, ascending), len(Certificates) *)
-Record cfgobs := mkObs { ob_insecure : bool; ob_name : list Z; ob_roots : option (list Z); ob_ncerts : Z }.
+(* ob_other: bit mask of which of the OTHER tls.Config fields are set (bit 0 VerifyPeerCertificate, 1 VerifyConnection,
+   2 ClientAuth, 3 MinVersion, 4 NextProtos, 5 GetClientCertificate, 6 MaxVersion, 7 CipherSuites,
+   8 SessionTicketsDisabled, 9 ClientSessionCache, 10 Renegotiation, 11 CurvePreferences, 12 GetCertificate, 13 Time) *)
+Record cfgobs := mkObs { ob_insecure : bool; ob_name : list Z; ob_roots : option (list Z); ob_ncerts : Z; ob_other : Z }.
 
 (* the SslOptions side of a case: Config, EnableHostVerification, CaPath/CertPath/KeyPath set?, and what
    the files the harness wrote contain (see Model.fsenv) *)
@@ -38,7 +41,7 @@ Definition subsetb (a b : list Z) : bool := forallb (fun x => existsb (Z.eqb x) 
 Definition set_eqb (a b : list Z) : bool := subsetb a b && subsetb b a.
 Definition obs_eqb (a b : cfgobs) : bool :=
   Bool.eqb (ob_insecure a) (ob_insecure b) && zlist_eqb (ob_name a) (ob_name b)
-  && opt_eqb set_eqb (ob_roots a) (ob_roots b) && (ob_ncerts a =? ob_ncerts b).
+  && opt_eqb set_eqb (ob_roots a) (ob_roots b) && (ob_ncerts a =? ob_ncerts b) && (ob_other a =? ob_other b).
 Fixpoint zll_eqb (a b : list (list Z)) : bool :=
   match a, b with
   | [], [] => true
@@ -52,8 +55,8 @@ Definition heap_of (c : option cfgobs) : heap * option nat :=
   | None => (mkHeap [] [], None)
   | Some ob =>
       match ob_roots ob with
-      | None => (mkHeap [mkCfg (ob_insecure ob) (ob_name ob) None (Z.to_nat (ob_ncerts ob))] [], Some 0%nat)
-      | Some ids => (mkHeap [mkCfg (ob_insecure ob) (ob_name ob) (Some 0%nat) (Z.to_nat (ob_ncerts ob))] [ids], Some 0%nat)
+      | None => (mkHeap [mkCfg (ob_insecure ob) (ob_name ob) None (Z.to_nat (ob_ncerts ob)) (ob_other ob)] [], Some 0%nat)
+      | Some ids => (mkHeap [mkCfg (ob_insecure ob) (ob_name ob) (Some 0%nat) (Z.to_nat (ob_ncerts ob)) (ob_other ob)] [ids], Some 0%nat)
       end
   end.
 
@@ -61,7 +64,7 @@ Definition observe (h : heap) (a : nat) : cfgobs :=
   let c := get_cfg h a in
   mkObs (c_insecure c) (c_name c)
         (match c_roots c with Some p => Some (get_pool h p) | None => None end)
-        (Z.of_nat (c_ncerts c)).
+        (Z.of_nat (c_ncerts c)) (c_other c).
 
 Definition observe_caller (h : heap) (oc : option nat) : option cfgobs :=
   match oc with Some a => Some (observe h a) | None => None end.
